@@ -1,0 +1,25 @@
+//go:build verif
+
+package nebula
+
+import "log/slog"
+
+// Hooks for the verification harness (engine fwconfig). Thin exports only, no behaviour.
+
+// VerifParsePort exposes parsePort.
+func VerifParsePort(s string) (int32, int32, error) { return parsePort(s) }
+
+// VerifRule mirrors the unexported rule struct.
+type VerifRule struct {
+	Port, Code, Proto, Host string
+	Groups                  []string
+	Cidr, LocalCidr         string
+	CAName, CASha           string
+}
+
+// VerifConvertRule exposes convertRule.
+func VerifConvertRule(l *slog.Logger, p any) (VerifRule, error) {
+	r, err := convertRule(l, p, "verif", 0)
+	return VerifRule{Port: r.Port, Code: r.Code, Proto: r.Proto, Host: r.Host, Groups: r.Groups, Cidr: r.Cidr,
+		LocalCidr: r.LocalCidr, CAName: r.CAName, CASha: r.CASha}, err
+}
